@@ -39,13 +39,13 @@ type User implements Node & Named { id: ID! name: String age: Int kind: Kind! fr
 type Post implements Node { id: ID! title: String! author: User! tags: [String!]! }
 type Bot implements Node & Named { id: ID! name: String model: String }
 union Result = User | Post
-interface Owned { owner: Named tags: [String] }
-"the first implementer declares the interface's fields with stricter wrappers around the same named types than the later ones"
-type Gist implements Owned { owner: Named! tags: [String]! }
-type Issue implements Owned { owner: Named tags: [String] n: Int }
-type Repo implements Owned { owner: User! tags: [String!]! stars: Int }
+interface Owned { owner: Named tags: [String] backup: Named }
+"the first implementer declares `owner` with stricter wrappers around the same named type than the later ones, and `backup` with wider ones"
+type Gist implements Owned { owner: Named! tags: [String]! backup: Named }
+type Issue implements Owned { owner: Named tags: [String] n: Int backup: Named! }
+type Repo implements Owned { owner: User! tags: [String!]! stars: Int backup: User }
 "lists an interface that itself implements another one BEFORE an unrelated interface"
-type Team implements Named & Node & Owned { id: ID! name: String owner: Named tags: [String] size: Int }
+type Team implements Named & Node & Owned { id: ID! name: String owner: Named tags: [String] size: Int backup: Named! }
 enum Kind { A B @deprecated(reason: "use A") }
 input Filter { kind: Kind name: String = "x" ids: [ID!] nested: Filter min: Int! = 0 req: Boolean! labels: [String!] = ["l"] }
 scalar Date
